@@ -318,6 +318,7 @@ func c12(c *an.Check) {
 			"util/extra25519.PrivateKeyToCurve25519: bounds digest[31]":      "digest is a SHA-512 sum (64 bytes)",
 		}})
 	}
+	thoroughCallers(c, "public-key decryption", 0, []string{"peer", "envelope", "transport/webrtc"}, an.R("peer", "", "DecryptWithPrivKey"), an.R("peer", "", "DecryptWithEd25519"))
 	c.Trust("XChaCha20-Poly1305, AES, X25519, BLAKE3, s2 behave as documented", "filippo.io/edwards25519 SetBytes/BytesMontgomery")
 }
 
